@@ -220,11 +220,14 @@ class LeanSide:
         names = re.findall(r"^\s*theorem\s+([^\s:({\[]+)", txt, re.M)
         out = [f"Arim.{pid}.{n}" for n in names]
         # tie theorems: generated translation of the source = hand-written model (ArimProofs/Tie/<pid>.lean)
-        tie = LEAN / "ArimProofs" / "Tie" / f"{pid}.lean"
-        if tie.exists():
-            names = re.findall(r"^\s*theorem\s+([^\s:({\[]+)", strip_lean_comments(tie.read_text()), re.M)
-            self.tie_theorems = [f"Arim.Tie.{pid}.{n}" for n in names]
-            out += self.tie_theorems
+        import srcspecs
+        self.tie_theorems = []
+        for tp in [pid] + list(srcspecs.USES.get(pid, [])):
+            tie = LEAN / "ArimProofs" / "Tie" / f"{tp}.lean"
+            if tie.exists():
+                names = re.findall(r"^\s*theorem\s+([^\s:({\[]+)", strip_lean_comments(tie.read_text()), re.M)
+                self.tie_theorems += [f"Arim.Tie.{tp}.{n}" for n in names]
+        out += self.tie_theorems
         return out
 
     def build_and_audit(self, pid, pre_build=None):
@@ -239,12 +242,13 @@ class LeanSide:
                 srctie.generate(other)
         ok, notes = srctie.generate(pid)
         self.translation_notes = notes
-        self.translated = [sp.name for sp in srctie.srcspecs.SPECS.get(pid, [])]
+        self.translated = [sp.name for tp in [pid] + list(srctie.srcspecs.USES.get(pid, [])) for sp in srctie.srcspecs.SPECS.get(tp, [])]
         if not ok:
             self.problems.append("py2lean: " + "; ".join(notes)[:400])
         if pre_build:
             pre_build()
-        rc, log = self._lake(f"ArimProofs.{pid}")
+        tie_mods = sorted({".".join(t.split(".")[:3]).replace("Arim.Tie.", "ArimProofs.Tie.") for t in self.tie_theorems})
+        rc, log = self._lake(f"ArimProofs.{pid}", *tie_mods)
         self.build_log += log
         if rc != 0:
             self.problems.append(f"lake build ArimProofs.{pid} failed")
@@ -258,7 +262,7 @@ class LeanSide:
         aud = CACHE / f"audit_{pid}_{os.getpid()}.lean"
         CACHE.mkdir(exist_ok=True)
         aud.write_text(
-            f"import ArimProofs.{pid}\n" + "".join(f"#print axioms {t}\n" for t in self.theorems)
+            f"import ArimProofs.{pid}\n" + "".join(f"import {m}\n" for m in tie_mods) + "".join(f"#print axioms {t}\n" for t in self.theorems)
         )
         try:
             p = subprocess.run(
